@@ -604,6 +604,16 @@ func (an *analyzer) run(fn *ssa.Function, params []aval, free []aval, depth int)
 					if iv, ok := constInt(i); ok && a.elems != nil && iv >= 0 && int(iv) < len(a.elems) {
 						nv = a.elems[iv]
 					}
+					if a.k == kConst && a.c.Kind() == constant.String {
+						if iv, ok := constInt(i); ok {
+							sv := constant.StringVal(a.c)
+							if iv >= 0 && int(iv) < len(sv) {
+								nv = cInt(int64(sv[iv]))
+							} else {
+								nv = bot
+							}
+						}
+					}
 				case *ssa.Lookup:
 					a := get(x.X)
 					i := get(x.Index)
@@ -613,6 +623,19 @@ func (an *analyzer) run(fn *ssa.Function, params []aval, free []aval, depth int)
 					}
 					if _, isStr := x.X.Type().Underlying().(*types.Basic); isStr {
 						an.indexHazard(x, a, i, res)
+						if a.k == kConst && a.c.Kind() == constant.String {
+							if iv, ok := constInt(i); ok {
+								sv := constant.StringVal(a.c)
+								if iv >= 0 && int(iv) < len(sv) {
+									nv = cInt(int64(sv[iv]))
+									break
+								}
+								nv = bot
+								break
+							}
+						}
+						nv = top
+						break
 					}
 					if x.CommaOk {
 						nv = aval{k: kTuple, tup: []aval{top, top}}
@@ -1249,6 +1272,27 @@ func evalBin(op token.Token, a, b aval) aval {
 			return r
 		}
 		if r, ok := isNilCmp(b, a); ok {
+			return r
+		}
+	}
+	// a length-abstract string against a constant string: decided by the lengths
+	if op == token.EQL || op == token.NEQ {
+		strLen := func(x, y aval) (aval, bool) {
+			if x.k == kSlice && x.elems == nil && y.k == kConst && y.c.Kind() == constant.String {
+				ly := len(constant.StringVal(y.c))
+				if x.n != ly {
+					return cBool(op == token.NEQ), true
+				}
+				if x.n == 0 {
+					return cBool(op == token.EQL), true
+				}
+			}
+			return aval{}, false
+		}
+		if r, ok := strLen(a, b); ok {
+			return r
+		}
+		if r, ok := strLen(b, a); ok {
 			return r
 		}
 	}
